@@ -285,6 +285,7 @@ func (ex *Exec) callContract(fr *Frame, st *State, fn *ssa.Function, fc *FuncCon
 	}
 	results := ex.freshResults(st, fn.Signature, "ret_"+fn.Name())
 	post := &Env{ex: ex, st: st, old: pre, vars: env.vars, pkg: env.pkg, results: results, resultNames: resultNames(fn)}
+	ex.applyGhost(post, fc, st)
 	for _, e := range fc.Ensures {
 		ex.assume(st, ex.evalBool(post, e.E))
 	}
